@@ -214,3 +214,42 @@ pub fn probe_imp() {
     assert!(got.is_some());
     reach!("imp"); std::mem::forget(got); std::mem::forget(db); std::mem::forget(w);
 }
+
+pub fn stub_pad<'a>(f: &mut std::fmt::Formatter<'a>, s: &str) -> std::fmt::Result where 'a: 'a { f.write_str(s) }
+fn ident_probe() {
+    let id = rustpython_parser::ast::Identifier::new("pytest");
+    let s = id.to_string();
+    let mut v: Vec<String> = Vec::with_capacity(4);
+    v.push(s);
+    v.push("other".to_string());
+    assert!(v.contains(&"pytest".to_string()));
+    assert!(!v.contains(&"pytesu".to_string()));
+    reach!("q0");
+    std::mem::forget(v);
+}
+/// @harness id=probe_ident props=PROBE unwind=20 mem=6 cap=300
+/// Identifier::to_string lengths
+#[cfg_attr(kani, kani::proof)]
+pub fn probe_ident() { ident_probe() }
+/// @harness id=probe_ident_pad props=PROBE unwind=20 mem=6 cap=300
+/// same with Formatter::pad stubbed
+#[cfg_attr(kani, kani::proof)]
+#[cfg_attr(kani, kani::stub(core::fmt::Formatter::pad, stub_pad))]
+pub fn probe_ident_pad() { ident_probe() }
+/// @harness id=probe_mv props=PROBE unwind=20 mem=6 cap=300
+/// set moved out of the map shim
+#[cfg_attr(kani, kani::proof)]
+pub fn probe_mv() {
+    use crate::coll::HashSet;
+    let m: dashmap::DashMap<PathBuf, HashSet<String>> = dashmap::DashMap::new();
+    let mut s = HashSet::new(); s.insert("f".to_string()); s.insert("gg".to_string());
+    m.insert(PathBuf::from(path(C1)), s);
+    m.insert(PathBuf::from(path(U)), HashSet::new());
+    let (_, names) = m.remove(Path::new(path(C1))).unwrap();
+    let mut t = HashSet::new();
+    for n in names { t.insert(n); }
+    assert!(t.contains("gg"));
+    assert!(!t.contains("hh"));
+    reach!("q0");
+    std::mem::forget(t); std::mem::forget(m);
+}
